@@ -35,6 +35,7 @@ func mkC15() *Scenario {
 	var t3 *UDPTrackerSrv
 	var mh *metaPeer
 	t4added := false
+	verifyIssued := false
 	notRunning := map[int]bool{} // steps before and after which the torrent was Stopping or Stopped
 	noBitfield := map[int]bool{} // steps around which the client had no bitfield (metadata unknown, not verified yet)
 	type runInfo struct{ startStep int }
@@ -93,14 +94,20 @@ func mkC15() *Scenario {
 			{Label: "advance 6s again", Do: func(w *World) { w.Advance(6 * time.Second) }},
 		}
 		o.Extra = func(w *World) []Action {
-			if t4added {
-				return nil
+			var acts []Action
+			if !t4added {
+				// the user adds a tracker at any moment (also while the torrent is stopping)
+				acts = append(acts, Action{Label: "adv:AddTracker(t4)", Do: func(w *World) {
+					t4added = true
+					w.Launch("AddTracker", func() any { return w.Tor.AddTracker("http://10.8.8.11/announce") })
+				}})
 			}
-			// the user adds a tracker at any moment (also while the torrent is stopping)
-			return []Action{{Label: "adv:AddTracker(t4)", Do: func(w *World) {
-				t4added = true
-				w.Launch("AddTracker", func() any { return w.Tor.AddTracker("http://10.8.8.11/announce") })
-			}}}
+			if st := w.Tor.VerifState().Status; !verifyIssued && (st == "Downloading" || st == "Seeding") {
+				// the user asks for a re-verification of the running torrent: it is stopped (a 'stopped' announce with
+				// the counters of that moment), verified, and left stopped
+				acts = append(acts, Action{Label: "adv:Verify", Do: func(w *World) { verifyIssued = true; w.CmdVerify() }})
+			}
+			return acts
 		}
 		w.Vars["std"] = o
 	}
@@ -192,6 +199,24 @@ func mkC15() *Scenario {
 			}
 			if a.event == "completed" && a.left != 0 {
 				w.Failf("C15.completed-left."+a.trk[:3], "'completed' announce to %s carries left=%d", a.trk, a.left)
+			}
+		}
+		// a client that has told a tracker how much is left knows it for the rest of that run: the placeholder after a
+		// real value (within one run, towards one tracker) is a wrong counter, whatever the client's own bookkeeping says
+		for _, trk := range []string{"http1", "http2", "udp", "http4"} {
+			known := false
+			for _, a := range all {
+				if a.trk != trk {
+					continue
+				}
+				if a.event == "started" {
+					known = false
+				}
+				if a.left != 4294967295 {
+					known = true
+				} else if known {
+					w.Failf("C15.left-unknown-after-known."+trk[:3], "announce (event %q) to %s at step %d carries the placeholder left=4294967295 although an earlier announce of the same run carried the real value", a.event, trk, a.step)
+				}
 			}
 		}
 		// event discipline per tracker and run
